@@ -315,6 +315,11 @@ func sequence(r *ev.Run, c *ev.Case, seqNo int, mon *chalMon) {
 			return
 		}
 		rec.Result = gsrig.Kind(runErr)
+		if runErr != nil {
+			// give work the handler may have started in the background a moment to reach the agent: an identity
+			// added after a refused run is as much a violation as one added during it
+			time.Sleep(1500 * time.Microsecond)
+		}
 		adds, signs := ag.Rec.Snapshot()
 		rec.SignReqs, rec.AddFrames, rec.SignerN = len(signs), len(adds), signer.NumCalls()
 		// add frames that never reached the recorder (faulted) still count: look at the wire log
